@@ -157,6 +157,10 @@ type Env struct {
 	Core  hsms.Connection
 	Secs1 bool // the connection under test is SECS-I over TCP (else HSMS-SS)
 
+	// snapMu orders snapshots against the harness's own bookkeeping: every "log event + independent
+	// count" pair is updated under RLock, a snapshot is taken under Lock, so a snapshot never falls
+	// between a wire/dispatch/async-error event and the count that goes with it
+	snapMu sync.RWMutex
 	mu     sync.Mutex
 	events []Event
 	seq    int
@@ -479,6 +483,8 @@ func (e *Env) WaitParked(d time.Duration) (int, bool) {
 }
 
 func (e *Env) asyncErr(msg hsms.Message, err error) {
+	e.snapMu.RLock()
+	defer e.snapMu.RUnlock()
 	e.AsyncErrs.Add(1)
 	if classify(err) == RNotSel {
 		e.AsyncNotSel.Add(1)
@@ -638,8 +644,10 @@ func (p *Peer) WriteRaw(b []byte) error { return p.write(b) }
 func (p *Peer) SendData(f []byte) error {
 	err := p.write(f)
 	if err == nil {
+		p.env.snapMu.RLock()
 		p.env.record(Event{Typ: 'D', G: p.Gen})
 		p.DataSent.Add(1)
+		p.env.snapMu.RUnlock()
 	} else if errors.Is(err, errS1Unacked) {
 		p.DataSentMaybe.Add(1)
 	}
@@ -763,13 +771,16 @@ func (p *Peer) Resume() {
 func (p *Peer) onData(f []byte) {
 	// the wire event is recorded BEFORE the independent count moves: a snapshot taken once the
 	// counts agree then has every wire event in front of it
-	defer p.DataRecv.Add(1)
+	p.env.snapMu.RLock()
+	defer p.env.snapMu.RUnlock()
+	// (deferred calls run last-declared first: the wire event, then DataRecv, then the S9 counters)
 	if f[6]&0x7F == 9 && f[7] == 1 {
-		p.S9F1Seen.Add(1)
+		defer p.S9F1Seen.Add(1)
 	}
 	if f[6]&0x7F == 9 && f[7] == 9 {
-		p.S9F9Seen.Add(1)
+		defer p.S9F9Seen.Add(1)
 	}
+	defer p.DataRecv.Add(1)
 	hold := f[6]&0x80 != 0 && (p.Mute.Load() || (p.RejectAll.Load() && p.s1))
 	if hold {
 		// held BEFORE the call is marked on the wire: a scenario that waits for OnWire and then
@@ -936,9 +947,25 @@ func (e *Env) WaitSettled(d time.Duration) bool {
 // Snapshot records the metrics getters. quiet: the harness has brought the connection to a
 // quiescent Selected or closed point (every call returned, state stable).
 func (e *Env) Snapshot(quiet bool) [8]int64 {
+	e.snapMu.Lock()
+	defer e.snapMu.Unlock()
 	m := e.Metrics()
 	e.record(Event{Typ: 'S', Snap: m, Q: quiet})
 	return m
+}
+
+// SnapshotIf reads the getters with the harness's bookkeeping frozen and records the snapshot only
+// if ok(m) holds (ok may read the independent counts: they cannot move meanwhile). A frame that
+// lands between the caller's convergence poll and the snapshot makes ok fail; the caller polls again.
+func (e *Env) SnapshotIf(quiet bool, ok func(m [8]int64) bool) ([8]int64, bool) {
+	e.snapMu.Lock()
+	defer e.snapMu.Unlock()
+	m := e.Metrics()
+	if !ok(m) {
+		return m, false
+	}
+	e.record(Event{Typ: 'S', Snap: m, Q: quiet})
+	return m, true
 }
 
 // WaitReconnectingZero polls the reconnecting gauge (the loop's deferred decrement runs just after
